@@ -373,6 +373,12 @@ pub fn run_c12(ctx: &Ctx) -> i32 {
     } else {
         machinery_error("C12: the fourth contract was not created");
     }
+    // the sender with the empty address (an address is a string; "no admin" must not compare equal to it)
+    for t in [ad.c.clone(), ad.a.clone()] {
+        alphabet.push(Program { entry: Entry::User { sender: String::new(), msg: Msg::UpdateAdmin { target: Target::Addr(t.clone()), admin: ad.poor.clone() } }, root: 0, nodes: vec![] });
+        alphabet.push(Program { entry: Entry::User { sender: String::new(), msg: Msg::ClearAdmin { target: Target::Addr(t.clone()) } }, root: 0, nodes: vec![] });
+        alphabet.push(Program { entry: Entry::User { sender: String::new(), msg: Msg::Migrate { target: Target::Addr(t.clone()), code: 2, node: 0 } }, root: 0, nodes: vec![mig_node(2, false)] });
+    }
     let targets = [ad.a.clone(), ad.b.clone(), ad.c.clone()];
     let senders = [ad.rich.clone(), ad.poor.clone()];
     let admins = [ad.rich.clone(), ad.poor.clone(), ad.a.clone()];
@@ -483,7 +489,7 @@ pub fn run_c12(ctx: &Ctx) -> i32 {
         ctx,
         &[("admin-migration", &out)],
         samples,
-        json!({"operations": alphabet.len(), "contracts": ["A (admin: creator)", "B (admin: contract A)", "C (no admin)", "D (admin: the name 'owner', which no address codec accepts)"], "senders": ["creator/admin", "stranger", "contract A or B via sub-message (reply_on Never and Error)", "'owner' and 'random' (D only)"],
+        json!({"operations": alphabet.len(), "contracts": ["A (admin: creator)", "B (admin: contract A)", "C (no admin)", "D (admin: the name 'owner', which no address codec accepts)"], "senders": ["creator/admin", "stranger", "contract A or B via sub-message (reply_on Never and Error)", "'owner' and 'random' (D only)", "the empty address (A and C)"],
                "migrate_targets": ["code 1", "code 2", "missing code 3"], "migrate_entry": ["succeeds", "fails"]}),
         vec!["admin candidates are {creator, stranger, contract A}".into()],
         extra,
@@ -789,6 +795,32 @@ pub fn run_c08(ctx: &Ctx) -> i32 {
                         Node { writes: vec![w], ..Default::default() },
                     ],
                 });
+            }
+        }
+        // inside one transaction: every sequence of two or three writes to one existing key (set,
+        // set another value, remove), each made by a nested call of its own (so they meet on the
+        // transaction's cache level), then a further nested call reads and iterates
+        for c in [ad.a.clone(), ad.b.clone(), ad.c.clone()] {
+            let ws = [WriteOp::Set(b"pre".to_vec(), b"one".to_vec()), WriteOp::Set(b"pre".to_vec(), b"two".to_vec()), WriteOp::Remove(b"pre".to_vec())];
+            let mut seqs: Vec<Vec<usize>> = vec![];
+            for a in 0..3 {
+                for b in 0..3 {
+                    seqs.push(vec![a, b]);
+                    for d in 0..3 {
+                        seqs.push(vec![a, b, d]);
+                    }
+                }
+            }
+            for sq in seqs {
+                let mut nodes = vec![Node::default()];
+                for (i, wi) in sq.iter().enumerate() {
+                    nodes.push(Node { writes: vec![ws[*wi].clone()], ..Default::default() });
+                    nodes[0].subs.push(Sub { id: 100 + i as u64, payload: vec![], reply_on: Mode::Never, msg: Msg::Call { target: Target::SelfC, funds: vec![], node: i + 1 }, reply: None });
+                }
+                let obs = nodes.len();
+                nodes.push(Node::default());
+                nodes[0].subs.push(Sub { id: 200, payload: vec![], reply_on: Mode::Never, msg: Msg::Call { target: Target::SelfC, funds: vec![], node: obs }, reply: None });
+                alphabet.push(Program { entry: Entry::Execute { sender: ad.poor.clone(), contract: c.clone(), funds: vec![] }, root: 0, nodes });
             }
         }
         alphabet.push(Program { entry: Entry::SendHelper { from: ad.rich.clone(), to: ad.b.clone(), coins: vec![("x".into(), 1)] }, root: 0, nodes: vec![] });
